@@ -617,12 +617,117 @@ func runC15(r *Run, rng *Rng, thorough bool) {
 		if p, what := safely(func() { _, err = encoding.SerializeStructToCBOR(extEM, mkDup()) }); p || err != nil {
 			r.Fail("serialize-fails", fmt.Sprintf("distinct CBOR keys: panic=%v (%v) err=%v", p, what, err))
 		}
+		// the same faults one level down, in an embedded struct: still an error
+		type innerDup struct {
+			B *int64 `cbor:"1,keyasint" json:"b"`
+		}
+		type outerDup struct {
+			A *int64 `cbor:"1,keyasint" json:"a"`
+			innerDup
+		}
+		type innerBad struct {
+			B *int64 `cbor:"xyz,keyasint" json:"a"`
+		}
+		type outerBad struct {
+			A *int64 `cbor:"1,keyasint" json:"a"`
+			innerBad
+		}
+		for name, f := range map[string]func() error{
+			"embedded field re-declares CBOR key 1": func() error {
+				_, e := encoding.SerializeStructToCBOR(extEM, &outerDup{A: &x, innerDup: innerDup{B: &x}})
+				return e
+			},
+			"embedded field re-declares JSON name a": func() error {
+				_, e := encoding.SerializeStructToJSON(&outerBad{A: &x, innerBad: innerBad{B: &x}})
+				return e
+			},
+			"embedded field with a non-integer CBOR key": func() error {
+				_, e := encoding.SerializeStructToCBOR(extEM, &outerBad{A: &x, innerBad: innerBad{B: &x}})
+				return e
+			},
+			"populate into an embedded non-integer CBOR key": func() error { return encoding.PopulateStructFromCBOR(extDM, []byte{0xa1, 0x01, 0x02}, &outerBad{}) },
+		} {
+			if p, what := safely(func() { err = f() }); p || err == nil {
+				r.Fail("duplicate-key", fmt.Sprintf("%s: panic=%v (%v) err=%v (an error is expected)", name, p, what, err))
+			}
+		}
 		for _, f := range []func() error{
 			func() error { _, e := encoding.SerializeStructToCBOR(extEM, &badKey{A: &x}); return e },
 			func() error { return encoding.PopulateStructFromCBOR(extDM, []byte{0xa1, 0x01, 0x02}, &badKey{}) },
 		} {
 			if p, what := safely(func() { err = f() }); p || err == nil {
 				r.Fail("serialize-fails", fmt.Sprintf("non-integer CBOR key in a tag: panic=%v (%v) err=%v (an error is expected)", p, what, err))
+			}
+		}
+	}
+	// (7) the ordered field map behind both codecs (reached through the hooks): keys come back in the order of the
+	// input, Delete removes exactly the named key wherever it stands, and what is left serialises in the original order
+	for rep := 0; rep < reps/3; rep++ {
+		n := 1 + rng.Intn(12)
+		keys := rng.Perm(40)[:n]
+		m := nMap()
+		var jmem []string
+		for _, k := range keys {
+			m.Pairs = append(m.Pairs, [2]*Node{nInt(int64(k - 10)), nUint(uint64(k))})
+			jmem = append(jmem, fmt.Sprintf(`"k%d":%d`, k, k))
+		}
+		omc := encoding.VerifNewOrderedMapCBOR()
+		omj := encoding.VerifNewOrderedMapJSON()
+		r.ImplOnly("ordered-map/delete", false, fmt.Sprintf("omap-delete n=%d", n))
+		if err := omc.FromCBOR(extDM, m.Bytes()); err != nil {
+			r.Fail("populate-panics", fmt.Sprintf("FromCBOR of a plain map: %v", err))
+			continue
+		}
+		if err := omj.FromJSON([]byte("{" + strings.Join(jmem, ",") + "}")); err != nil {
+			r.Fail("populate-panics", fmt.Sprintf("FromJSON of a plain object: %v", err))
+			continue
+		}
+		wantC := make([]int, n)
+		wantJ := make([]string, n)
+		for i, k := range keys {
+			wantC[i], wantJ[i] = k-10, fmt.Sprintf("k%d", k)
+		}
+		cmp := func(stage string) {
+			if fmt.Sprint(omc.Keys()) != fmt.Sprint(wantC) || omc.NumFields() != len(wantC) {
+				r.Fail("stable-order", fmt.Sprintf("%s: CBOR field map keys %v (%d fields), expected %v", stage, omc.Keys(), omc.NumFields(), wantC))
+			}
+			if fmt.Sprint(omj.Keys()) != fmt.Sprint(wantJ) || omj.NumFields() != len(wantJ) {
+				r.Fail("stable-order", fmt.Sprintf("%s: JSON field map keys %v (%d fields), expected %v", stage, omj.Keys(), omj.NumFields(), wantJ))
+			}
+		}
+		cmp("after reading")
+		for d := 0; d < 1+rng.Intn(4); d++ {
+			var ki int
+			if rng.Chance(80) && len(wantC) > 0 {
+				ki = rng.Intn(len(wantC))
+				omc.Delete(wantC[ki])
+				omj.Delete(wantJ[ki])
+				wantC = append(append([]int{}, wantC[:ki]...), wantC[ki+1:]...)
+				wantJ = append(append([]string{}, wantJ[:ki]...), wantJ[ki+1:]...)
+			} else {
+				omc.Delete(1000 + d) // not there
+				omj.Delete("absent")
+			}
+			cmp("after Delete")
+		}
+		out, err := omc.ToCBOR(extEM)
+		if nd, rest, perr := parseNode(out, 0); err != nil || perr != nil || len(rest) != 0 || nd.Kind != kMap || len(nd.Pairs) != len(wantC) {
+			r.Fail("one-map", fmt.Sprintf("after Delete the field map serialises to %x (%v)", out, err))
+		} else {
+			for i, p := range nd.Pairs {
+				if k, ok := keyInt(p[0]); !ok || int(k) != wantC[i] {
+					r.Fail("stable-order", fmt.Sprintf("after Delete entry %d has key %s, expected %d", i, p[0], wantC[i]))
+				}
+			}
+		}
+		jout, jerr := omj.ToJSON()
+		if jt, perr := parseJSONText(jout); jerr != nil || perr != nil || jt.Kind != jObj || len(jt.Mem) != len(wantJ) {
+			r.Fail("one-object", fmt.Sprintf("after Delete the field map serialises to %s (%v)", jout, jerr))
+		} else {
+			for i, mm := range jt.Mem {
+				if mm.Name != wantJ[i] {
+					r.Fail("stable-order", fmt.Sprintf("after Delete member %d is %q, expected %q", i, mm.Name, wantJ[i]))
+				}
 			}
 		}
 	}
